@@ -63,8 +63,9 @@ class Context:
         """A rule that matches fewer instances than confirmed by hand is analysis-broken, never a pass."""
         self.floors.append((rule, found, floor))
         if found < floor:
-            raise AnalysisBroken('rule %s matched %d instance(s), floor is %d (anchor vanished or extractor lost sight of the code)'
-                                 % (rule, found, floor))
+            # recorded as an undecided obligation (exit 2) instead of aborting: violations found by the other rules of the same
+            # run are still reported (a change that both breaks a rule and shrinks an instance count is a violation, exit 1)
+            self.undecided(rule, '', 'rule floor', '', 'rule %s matched %d instance(s), floor is %d (anchor vanished or extractor lost sight of the code)' % (rule, found, floor))
 
     def control(self, name, fired):
         self.controls.append({'control': name, 'fired': bool(fired)})
